@@ -75,8 +75,8 @@ pub fn run(ctx: &Ctx) {
     ctx.assume("numbers are compared bit-exactly (no decimal text round trip is part of the statement)");
     let avoid = geom::active_switches(&|s| ctx.avoid(s));
     let cases = match ctx.tier {
-        Tier::Quick => 4000,
-        Tier::Thorough => 100000,
+        Tier::Quick => 30000,
+        Tier::Thorough => 600000,
     };
     let enc = |c: &EditCase| serde_json::to_value(c).unwrap_or(Value::Null);
     let cfg = GenCfg::default();
